@@ -237,6 +237,9 @@ def check_B(item, r):
     from msdm.core.semimdp.option import PlanToSubgoalOption
     from msdm.algorithms import ValueIteration
     _, spec_item, li, _ = item
+    if li % 2 == 1:
+        # the base MDP has an absorbing state of its own (so include_mdp_absorbing_states makes a difference)
+        spec_item = spec_item[:3] + ((1,),) + spec_item[4:]
     spec = Spec(spec_item)
     n = spec.n
     base = build.SpecMDP(spec, SLAB[li], ALAB[li], explicit_lists=True)
@@ -415,6 +418,54 @@ def check_C(item, tier, r):
                     r.count('states', ex.states)
                     if ex.executions >= 2:
                         r.nontriv((spec_item, pol_kind, terminal, max_steps, start))
+    # ---- a planned sub-goal option, built without a name, is executed too: it ends at its first sub-goal (or raises at the limit)
+    from msdm.core.semimdp.option import PlanToSubgoalOption
+    from msdm.algorithms import ValueIteration
+    succ = {s: {ns for a in spec.acts[s] for ns in spec.T[s][a]} for s in range(n)}
+    for subgoals in [(2,), (1, 2)]:
+        for max_steps in (2, 4):
+            try:
+                popt = PlanToSubgoalOption(mdp=base, initial_states=[sl(s) for s in range(n) if s not in subgoals],
+                                           subgoals=[sl(s) for s in subgoals], planner=ValueIteration(max_residual=1e-8, max_iterations=2000),
+                                           max_steps=max_steps)
+                popt.policy
+            except BaseException as e:
+                r.count('planned_option_not_built')
+                continue
+            for start in range(n):
+                ctx = {'planned_option_subgoals': subgoals, 'max_steps': max_steps, 'start': start}
+                ex = Explorer(bound=None, max_points=60, max_execs=2000)
+
+                def body(rng):
+                    try:
+                        return ('ok', popt.run_on(base, sl(start), rng=rng))
+                    except AlgorithmException:
+                        return ('raised', None)
+
+                def on_exec(out, e, trunc):
+                    r.count('executions')
+                    r.count('transitions')
+                    if trunc:
+                        r.count('truncated_executions')
+                        return
+                    if out[0] != 'ok':
+                        r.count('planned_option_raised_at_its_step_limit')
+                        return
+                    path = [base.s_of.get(x) for x in out[1].state]
+                    c = dict(ctx, schedule=e.devs(), path=path)
+                    first_term = next((k for k, s_ in enumerate(path) if s_ in subgoals), None)
+                    if path[0] != start:
+                        r.violation('option_wrong_start', c, item)
+                    elif any(v not in succ.get(u, ()) for u, v in zip(path, path[1:])):
+                        r.violation('option_step_not_a_transition', c, item)
+                    elif first_term is None or first_term != len(path) - 1:
+                        r.violation('option_returned_without_ending_at_first_terminal_state', c, item)
+                    r.outcome((spec_item, 'planned', subgoals, max_steps, start, tuple(path)))
+                try:
+                    ex.explore(body, on_exec)
+                except (TypeError, KeyError, ValueError, AttributeError) as e:
+                    r.violation('planned_option_exception', dict(ctx, error=repr(e)[:300]), item)
+                r.count('states', ex.states)
     if hash(repr(item)) % 40 == 0:
         r.sample({'part': 'C', 'spec': repr(spec_item)})
 
